@@ -8,6 +8,7 @@ import Larking.Model.StreamCodec
 import Larking.Model.Selector
 import Larking.Model.Negotiate
 import Larking.Model.Trie
+import Larking.Model.Streams
 import Larking.Gen.Lexer
 namespace Larking.Driver
 open Larking.Status
@@ -253,8 +254,43 @@ def handleRouting : List String → Option String
       pure (showSRes (Trie.matchPath Gen.tokenCap (convOf bs) t p v))
   | _ => none
 
+/-! ### streams -/
+def showRecvs (rs : List Streams.Recv) : String :=
+  " ".intercalate (rs.map fun r => match r with
+    | .msg b => "m:" ++ toHex b
+    | .eof => "eof"
+    | .err e => "err:" ++ e.name
+    | .panic => "panic")
+
+/-- gunzip table: `compressedhex:plainhex,...`; `none` = no decompressor negotiated -/
+def parseGz (s : String) : Option (Bytes → Option Bytes) :=
+  if s == "none" then none else
+  let tbl := if s == "-" || s.isEmpty then [] else (s.splitOn ",").filterMap fun it =>
+    match it.splitOn ":" with
+    | [a, b] => do pure ((← hexArg a), (← hexArg b))
+    | _ => none
+  some fun b => (tbl.find? fun p => p.1 == b).map (·.2)
+
+def handleStreams : List String → Option String
+  | ["httprecv", codec, limit, wire, sched, eofd] => do
+      let w ← hexArg wire
+      let lim ← limit.toNat?
+      let k ← (match codec with | "proto" => some Streams.CodecK.proto | "json" => some .json | "body" => some .body | _ => none)
+      let e : Env := { data := w, sched := natList sched, eofWithData := eofd == "1", grows := [] }
+      pure (showRecvs (Streams.recvAll k lim (w.length + 3) (List.replicate (w.length + 3) 64) ⟨[], false, 0, e⟩))
+  | ["grpcrecv", maxRecv, gz, wire, sched, eofd] => do
+      let w ← hexArg wire
+      let lim ← maxRecv.toNat?
+      let e : Env := { data := w, sched := natList sched, eofWithData := eofd == "1", grows := [] }
+      pure (showRecvs (Streams.grpcRecvAll (parseGz gz) lim (w.length + 3) e))
+  | ["grpcsend", maxSend, payload] => do
+      let p ← hexArg payload
+      let lim ← maxSend.toNat?
+      pure (match Streams.grpcSend none lim p with | some f => "ok " ++ toHex f | none => "err")
+  | _ => none
+
 def handlers : List (List String → Option String) :=
-  [handleC05, handleC14C15, handleC17, handleC19, handleC04, handleRouting]
+  [handleC05, handleC14C15, handleC17, handleC19, handleC04, handleRouting, handleStreams]
 
 def handle (args : List String) : String :=
   match handlers.findSome? (fun h => h args) with
